@@ -549,3 +549,99 @@ func sigIsParserCallback(sig *types.Signature) bool {
 	n, ok := p.Elem().(*types.Named)
 	return ok && n.Obj().Name() == "parser"
 }
+
+// inferredWrites: the heap keys (struct-field heaps, globals) a repo function
+// may store to, transitively through its callees (contracted callees
+// contribute their assigns clause). Sound by type safety: a field heap is
+// only written through a FieldAddr of that field. "*" = unknown.
+func (V *Verifier) inferredWrites(fn *ssa.Function) map[string]bool {
+	if V.infWrites == nil {
+		V.infWrites = map[*ssa.Function]map[string]bool{}
+		fns := make([]*ssa.Function, 0, len(V.P.Funcs))
+		for _, k := range sortedFuncKeys(V.P.Funcs) {
+			fns = append(fns, V.P.Funcs[k])
+			V.infWrites[V.P.Funcs[k]] = map[string]bool{}
+		}
+		e := &fnEnc{V: V, U: V.U}
+		add := func(f *ssa.Function, k string) bool {
+			if V.infWrites[f][k] {
+				return false
+			}
+			V.infWrites[f][k] = true
+			return true
+		}
+		for changed, it := true, 0; changed && it < 60; it++ {
+			changed = false
+			for _, f := range fns {
+				e.fn = f
+				for _, b := range f.Blocks {
+					for _, in := range b.Instrs {
+						switch in := in.(type) {
+						case *ssa.Store:
+							if _, isAlloc := rootOf(in.Addr).(*ssa.Alloc); isAlloc {
+								// local variable / fresh object: still a write to that field heap
+							}
+							for _, k := range e.addrKeys(in.Addr) {
+								if add(f, k) {
+									changed = true
+								}
+							}
+						case ssa.CallInstruction:
+							cc := in.Common()
+							if _, isB := cc.Value.(*ssa.Builtin); isB {
+								continue
+							}
+							var callees []*ssa.Function
+							key := calleeKey(cc)
+							if callee := cc.StaticCallee(); callee != nil {
+								if inRepo(V, callee) {
+									callees = append(callees, callee)
+								} else if c := V.CS.ByKey[key]; c != nil && c.HasAssigns {
+									for _, a := range stripLoc(c.Assigns) {
+										if add(f, a) {
+											changed = true
+										}
+									}
+								}
+							} else if cc.IsInvoke() {
+								if iface, ok := cc.Value.Type().Underlying().(*types.Interface); ok {
+									for _, k2 := range sortedFuncKeys(V.P.Funcs) {
+										g := V.P.Funcs[k2]
+										if g.Signature.Recv() != nil && g.Name() == cc.Method.Name() && types.Implements(g.Signature.Recv().Type(), iface) {
+											callees = append(callees, g)
+										}
+									}
+								}
+							} else {
+								callees = append(callees, V.candidatesAll(cc.Signature())...)
+								if sigIsParserCallback(cc.Signature()) {
+									for _, k2 := range sortedFuncKeys(V.P.Funcs) {
+										if strings.HasPrefix(k2, "grammar.parser.callon") {
+											callees = append(callees, V.P.Funcs[k2])
+										}
+									}
+								}
+							}
+							for _, g := range callees {
+								if c := V.CS.ByKey[funcKey(g)]; c != nil && c.HasAssigns {
+									for _, a := range stripLoc(c.Assigns) {
+										if add(f, a) {
+											changed = true
+										}
+									}
+									continue
+								}
+								for k := range V.infWrites[g] {
+									if add(f, k) {
+										changed = true
+									}
+								}
+							}
+						}
+					}
+				}
+			}
+		}
+	}
+	return V.infWrites[fn]
+}
